@@ -46,14 +46,18 @@ contract(
              "bytes-are-decoded-the-way-the-os-would": "implies(isinstance(x, bytes), result == fsdecode(x))"},
     from_property="a value injected with @(expr) arrives verbatim ... never re-split, globbed or expanded",
 )
+_LEXT = dict(INJ_EXT, **{"ensure_str_or_callable": Ext(ret=Union(Str, FN), pure=True, uf="ensured", ensures=["implies(isinstance(a0, str), result == a0)"],
+                                                      note="its own contract (a string is returned untouched)"),
+                        "ensured": Ext(ret=Union(Str, FN), pure=True, uf="ensured")})
+_LCFG = {"isinstance": {"str": ["str"], "bytes": ["bytes"], "cabc.Iterable": ["seq"], "Iterable": ["seq"]}, "callable_types": ("fn",)}
+# one contract per shape of the injected value (so that no clause has to look inside a union)
 contract(
-    BI + "list_of_strs_or_callables", "C04", params=dict(x=Union(Str, Bytes, FN, Seq(Str), OTHER)), returns=List(Union(Str, FN)),
-    externals=dict(INJ_EXT, **{"ensure_str_or_callable": Ext(ret=Union(Str, FN), pure=True, uf="ensured", ensures=["implies(isinstance(a0, str), result == a0)"],
-                                                             note="its own contract (a string is returned untouched)"),
-                               "ensured": Ext(ret=Union(Str, FN), pure=True, uf="ensured")}),
-    config={"isinstance": {"str": ["str"], "bytes": ["bytes"], "cabc.Iterable": ["seq"], "Iterable": ["seq"]}, "callable_types": ("fn",)},
-    ensures={"a-string-is-exactly-one-argument-equal-to-it": "implies(isinstance(x, str), len(result) == 1 and result[0] == x)",
-             "a-list-of-strings-is-one-argument-per-element-in-order-each-untouched":
-                 "implies(isinstance(x, list), len(result) == len(x) and forall(lambda j: result[j] == x[j], 0, len(x)))"},
+    BI + "list_of_strs_or_callables", "C04", variant_id="string", params=dict(x=Str), returns=List(Union(Str, FN)), externals=_LEXT, config=_LCFG,
+    ensures={"a-string-ANY-string-the-empty-one-included-is-exactly-one-argument-equal-to-it": "len(result) == 1 and result[0] == x"},
+    from_property="a value injected with @(expr) arrives verbatim, one argument per string or element, never re-split, globbed or expanded",
+)
+contract(
+    BI + "list_of_strs_or_callables", "C04", variant_id="list", params=dict(x=Seq(Str)), returns=List(Union(Str, FN)), externals=_LEXT, config=_LCFG,
+    ensures={"a-list-of-strings-is-one-argument-per-element-in-order-each-untouched": "len(result) == len(x) and forall(lambda j: result[j] == x[j], 0, len(x))"},
     from_property="a value injected with @(expr) arrives verbatim, one argument per string or element, never re-split, globbed or expanded",
 )
